@@ -196,7 +196,7 @@ theorem correct_spec {p : Params} (F : Facts p) (s : TM) (x0 : Rat)
     ∃ s' d, correct p s = (s', .ok (some d)) ∧ s'.time = s.time ∧ s'.timeIndex = s.timeIndex ∧
       s'.recompNum = s.recompNum ∧ s'.dt = d ∧ 0 < s'.dt ∧ s'.dt ≤ p.dtMax ∧
       (p.dtMin ≤ s'.dt ∨ s'.aboutToHit = true) ∧ (s'.aboutToHit = true → 1 ≤ s'.idx) ∧
-      s.idx ≤ pending s' ∧
+      s.idx ≤ pending s' ∧ (s.time = x0 → s.idx + 1 ≤ pending s') ∧
       (∃ x, p.schedule[pending s']? = some x ∧ s'.time + s'.dt ≤ x ∧ (s'.aboutToHit = true → s'.time + s'.dt = x)) ∧
       (∀ j, s.idx ≤ j → j < pending s' → ∃ y, p.schedule[j]? = some y ∧ isclose p.rtol p.atol s.time y = true) := by
   have hlt : s.idx < p.schedule.length := by
@@ -218,11 +218,24 @@ theorem correct_spec {p : Params} (F : Facts p) (s : TM) (x0 : Rat)
     corrSched_spec p.rtol p.atol s.time (clampMax p (clampMin p s.dt)) _ hne hsorted hhead hlast
   obtain ⟨hx, hmem⟩ := getElem?_of_drop_eq hl
   have hb := clamp_bounds F s.dt
+  have hpre1 : s.time = x0 → 1 ≤ pre.length := by
+    intro e
+    cases hpl : pre with
+    | cons a l => simp
+    | nil =>
+      exfalso
+      rw [hpl] at hx
+      simp only [List.length_nil, Nat.add_zero] at hx
+      rw [hx0] at hx; cases hx
+      rcases hcase with ⟨hfit, _⟩ | ⟨_, hnc, _⟩
+      · grind
+      · rw [e, isclose_self] at hnc; cases hnc
   rcases hcase with ⟨hfit, hc⟩ | ⟨hcut, hnc, hc⟩
   · refine ⟨{ s with dt := clampMax p (clampMin p s.dt), idx := s.idx + pre.length, aboutToHit := false },
       clampMax p (clampMin p s.dt), by simp only [correct, hc], rfl, rfl, rfl, rfl, hpos, hb.2, Or.inl hb.1,
-      by simp, ?_, ?_, ?_⟩
+      by simp, ?_, ?_, ?_, ?_⟩
     · simp [pending]
+    · intro e; have := hpre1 e; simp [pending]; omega
     · exact ⟨x, by simpa [pending] using hx, hfit, by simp⟩
     · intro j h1 h2
       obtain ⟨y, hy, hym⟩ := hmem j h1 (by simpa [pending] using h2)
@@ -232,11 +245,12 @@ theorem correct_spec {p : Params} (F : Facts p) (s : TM) (x0 : Rat)
       · exact h
       · rw [← h, isclose_self] at hnc; cases hnc
     refine ⟨{ s with dt := x - s.time, idx := s.idx + (pre.length + 1), aboutToHit := true },
-      x - s.time, by simp only [correct, hc], rfl, rfl, rfl, rfl, ?_, ?_, Or.inr rfl, ?_, ?_, ?_, ?_⟩
+      x - s.time, by simp only [correct, hc], rfl, rfl, rfl, rfl, ?_, ?_, Or.inr rfl, ?_, ?_, ?_, ?_, ?_⟩
     · show 0 < x - s.time; grind
     · show x - s.time ≤ p.dtMax; grind
     · intro _; show 1 ≤ s.idx + (pre.length + 1); omega
     · simp [pending]
+    · intro e; have := hpre1 e; simp [pending]; omega
     · refine ⟨x, ?_, ?_, ?_⟩
       · simpa [pending] using hx
       · show s.time + (x - s.time) ≤ x; grind
@@ -258,10 +272,14 @@ structure Inv (p : Params) (s : TM) (acc : List Rat) : Prop where
   hit : ∀ j, j < pending s → ∃ y, p.schedule[j]? = some y ∧ HitBy p acc y
   not_final : finalTimeReached p s = false
   dt_max : s.dt ≤ p.dtMax
-  dt_min : p.dtMin ≤ s.dt ∨ s.aboutToHit = true
+  dt_min : p.dtMin ≤ s.dt ∨ ∃ x, p.schedule[pending s]? = some x ∧ s.time + s.dt = x
   recomp : (s.recompNum : Int) ≤ p.recompMax
   time_nonneg : 0 ≤ s.time
   ti : s.timeIndex + 1 = acc.length
+  pend_pos : 1 ≤ pending s
+
+theorem pending_le_idx (s : TM) : pending s ≤ s.idx := by
+  unfold pending; split <;> omega
 
 def Good (p : Params) (r : Run) : Prop :=
   r.accepted.Pairwise (· > ·) ∧ (∀ a ∈ r.accepted, a ≤ p.timeFinal) ∧
@@ -348,6 +366,8 @@ theorem step_converged_cases {p : Params} (F : Facts p) {s : TM} {acc : List Rat
      ((stepRun p { tm := s, accepted := acc, status := .running } (.converged it)).status = .running ∧
         (stepRun p { tm := s, accepted := acc, status := .running } (.converged it)).tm.time = s.time + s.dt ∧
         s.idx ≤ pending (stepRun p { tm := s, accepted := acc, status := .running } (.converged it)).tm ∧
+        (p.schedule[s.idx]? = some (s.time + s.dt) →
+          s.idx + 1 ≤ pending (stepRun p { tm := s, accepted := acc, status := .running } (.converged it)).tm) ∧
         Inv p (stepRun p { tm := s, accepted := acc, status := .running } (.converged it)).tm ((s.time + s.dt) :: acc))) := by
   obtain ⟨x, hx, hle, heq⟩ := I.next
   obtain ⟨hgt, hfin, hnn⟩ := after_increase F hm I
@@ -425,20 +445,27 @@ theorem step_converged_cases {p : Params} (F : Facts p) {s : TM} {acc : List Rat
         · exact Rat.mul_pos (by grind) (by grind)
         · exact Rat.mul_pos (by grind) h1
         · grind
-    obtain ⟨s3, d, hc, ht, hti, hrc, hd, hdpos, hdmax, hdmin, hipos, hidx, hnext, hnew⟩ :=
+    obtain ⟨s3, d, hc, ht, hti, hrc, hd, hdpos, hdmax, hdmin, hipos, hidx, hidx1, hnext, hnew⟩ :=
       correct_spec F (adaptIter p (increaseTimeIndex (increaseTime s)) it) x0 hpos (by rw [ha2]; exact hx0)
         (by rw [ha1, ht1]; exact hle0) (by rw [ha1]; exact hnf)
     have ht3 : s3.time = s.time + s.dt := by rw [ht, ha1, ht1]
     have hf3 : finalTimeReached p s3 = false := by rw [final_congr p (ht3.trans ht1.symm)]; exact hf'
     have hidx' : s.idx ≤ pending s3 := by rw [ha2] at hidx; exact hidx
-    refine ⟨?_, hm', hb', Or.inr ⟨?_, ?_, ?_, ?_⟩⟩
+    have hland : p.schedule[s.idx]? = some (s.time + s.dt) → s.idx + 1 ≤ pending s3 := by
+      intro e
+      rw [hx0] at e; cases e
+      have := hidx1 (by rw [ha1, ht1])
+      rw [ha2] at this; exact this
+    refine ⟨?_, hm', hb', Or.inr ⟨?_, ?_, ?_, ?_, ?_⟩⟩
     · simp only [stepRun, F.adaptive, Bool.false_eq_true, if_false, compute_conv F it hf', hc]; rfl
     · simp only [stepRun, F.adaptive, Bool.false_eq_true, if_false, compute_conv F it hf', hc, statusOf, hf3]
     · simp only [stepRun, F.adaptive, Bool.false_eq_true, if_false, compute_conv F it hf', hc]; exact ht3
     · simp only [stepRun, F.adaptive, Bool.false_eq_true, if_false, compute_conv F it hf', hc]; exact hidx'
+    · simp only [stepRun, F.adaptive, Bool.false_eq_true, if_false, compute_conv F it hf', hc]; exact hland
     simp only [stepRun, F.adaptive, Bool.false_eq_true, if_false, compute_conv F it hf', hc]
     show Inv p s3 ((s.time + s.dt) :: acc)
-    refine ⟨by simp [ht3], hdpos, hipos, hnext, ?_, hf3, hdmax, hdmin, ?_, by rw [ht3]; exact hnn, ?_⟩
+    refine ⟨by simp [ht3], hdpos, hipos, hnext, ?_, hf3, hdmax, (hdmin.imp id (fun h => by obtain ⟨x, hx, _, he⟩ := hnext; exact ⟨x, hx, he h⟩)), ?_, by rw [ht3]; exact hnn, ?_,
+      Nat.le_trans I.pend_pos (Nat.le_trans (pending_le_idx s) hidx')⟩
     · intro j hj
       rcases Nat.lt_or_ge j (pending s) with hlt | hge
       · obtain ⟨y, hy1, hy2⟩ := I.hit j hlt
@@ -465,7 +492,7 @@ theorem step_converged {p : Params} (F : Facts p) {s : TM} {acc : List Rat} (hm 
     Good p (stepRun p { tm := s, accepted := acc, status := .running } (.converged it)) := by
   obtain ⟨hacc, hm', hb', hcase⟩ := step_converged_cases F hm hb I it
   refine ⟨by rw [hacc]; exact hm', by rw [hacc]; exact hb', ?_⟩
-  rcases hcase with ⟨h, hh⟩ | ⟨h, _, _, hI⟩
+  rcases hcase with ⟨h, hh⟩ | ⟨h, _, _, _, hI⟩
   · rw [h, hacc]; exact hh
   · rw [h, hacc]; exact hI
 
@@ -511,14 +538,15 @@ theorem step_failed_cases {p : Params} (F : Facts p) {s : TM} {acc : List Rat} (
         · exact Or.inl h
         · right; rw [hRd]; exact Rat.mul_pos I.dt_pos h
       have hnf : isclose p.rtol p.atol s.time p.timeFinal = false := (not_final_iff.mp I.not_final).2
-      obtain ⟨s3, d, hc, ht, hti, hrc, hd, hdpos, hdmax, hdmin, hipos, hidx, hnext, hnew⟩ :=
+      obtain ⟨s3, d, hc, ht, hti, hrc, hd, hdpos, hdmax, hdmin, hipos, hidx, hidx1, hnext, hnew⟩ :=
         correct_spec F (rewound p (increaseTimeIndex (increaseTime s))) x hpos (by rw [hRi]; exact hx)
           (by rw [hRt]; have := I.dt_pos; grind) (by rw [hRt]; exact hnf)
       have ht3 : s3.time = s.time := ht.trans hRt
       have hf3 : finalTimeReached p s3 = false := by rw [final_congr p ht3]; exact I.not_final
       have hmem : s.time ∈ acc := List.mem_of_mem_head? I.head
       have hInv : Inv p s3 acc := by
-        refine ⟨by rw [ht3]; exact I.head, hdpos, hipos, hnext, ?_, hf3, hdmax, hdmin, ?_, by rw [ht3]; exact I.time_nonneg, ?_⟩
+        refine ⟨by rw [ht3]; exact I.head, hdpos, hipos, hnext, ?_, hf3, hdmax, (hdmin.imp id (fun h => by obtain ⟨x, hx, _, he⟩ := hnext; exact ⟨x, hx, he h⟩)), ?_, by rw [ht3]; exact I.time_nonneg, ?_,
+          Nat.le_trans I.pend_pos (by rw [hRi] at hidx; exact hidx)⟩
         · intro j hj
           rcases Nat.lt_or_ge j (pending s) with hlt | hge
           · exact I.hit j hlt
@@ -586,7 +614,7 @@ theorem good_start {p : Params} (F : Facts p) : Good p (startRun p) := by
     show Inv p (init p) [p.timeInit]
     rw [ht0]
     refine ⟨by simp [init, ht0], F.dt0, by simp [init], ⟨s1, by simp [pending, init, hs], ?_, by simp [init]⟩, ?_, hf',
-      F.max0, Or.inl F.min0, ?_, by simp [init, ht0, h0], by simp [init]⟩
+      F.max0, Or.inl F.min0, ?_, by simp [init, ht0, h0], by simp [init], by simp [pending, init]⟩
     · show p.timeInit + p.dtInit ≤ s1; rw [ht0]; exact hfit
     · intro j hj
       have : j = 0 := by simp [pending, init] at hj; omega
@@ -685,7 +713,7 @@ theorem converged_costs {p : Params} (F : Facts p) (hmin : 0 < p.dtMin) {s : TM}
     budget p (stepRun p { tm := s, accepted := acc, status := .running } (.converged it)).tm + p.dtMin
       ≤ budget p s := by
   obtain ⟨_, _, _, hcase⟩ := step_converged_cases F hm hb I it
-  rcases hcase with ⟨h', _⟩ | ⟨_, ht, hidx, hI⟩
+  rcases hcase with ⟨h', _⟩ | ⟨_, ht, hidx, hland, hI⟩
   · rw [h'] at h; cases h
   · have hlt := hI.pending_lt
     have hlt0 := I.pending_lt
@@ -708,10 +736,22 @@ theorem converged_costs {p : Params} (F : Facts p) (hmin : 0 < p.dtMin) {s : TM}
       grind
     | false =>
       have hp : pending s = s.idx := by simp [pending, hab]
-      have hdt : p.dtMin ≤ s.dt := by
-        rcases I.dt_min with h1 | h1
-        · exact h1
-        · rw [hab] at h1; cases h1
+      rcases I.dt_min with hdt | ⟨x, hx, he⟩
+      case inr =>
+        -- the step lands exactly on the pending scheduled time without the flag: the cursor moves on
+        rw [hp] at hx
+        have hadv := hland (by rw [hx, he])
+        have hsplit : ((p.schedule.length - pending s : Nat) : Rat) =
+            ((p.schedule.length - pending (stepRun p { tm := s, accepted := acc, status := .running } (.converged it)).tm : Nat) : Rat)
+              + ((pending (stepRun p { tm := s, accepted := acc, status := .running } (.converged it)).tm - pending s : Nat) : Rat) := by
+          rw [← Rat.natCast_add]; congr 1; omega
+        have h3 : (1 : Rat) ≤ ((pending (stepRun p { tm := s, accepted := acc, status := .running } (.converged it)).tm - pending s : Nat) : Rat) := by
+          have : 1 ≤ pending (stepRun p { tm := s, accepted := acc, status := .running } (.converged it)).tm - pending s := by omega
+          exact_mod_cast this
+        have h4 := Rat.mul_le_mul_of_nonneg_left h3 (Rat.le_of_lt hmin)
+        have := I.dt_pos
+        rw [hsplit]
+        grind
       have h3 : ((p.schedule.length - pending (stepRun p { tm := s, accepted := acc, status := .running } (.converged it)).tm : Nat) : Rat)
           ≤ ((p.schedule.length - pending s : Nat) : Rat) := by
         have : p.schedule.length - pending (stepRun p { tm := s, accepted := acc, status := .running } (.converged it)).tm
@@ -745,7 +785,7 @@ theorem converged_run_budget {p : Params} (F : Facts p) (hmin : 0 < p.dtMin) :
     have hg' := step_converged F hm hb hI it
     show (runFrom p (stepRun p _ (.converged it)) os).status = .finished ∨ _
     obtain ⟨_, _, _, hcase⟩ := step_converged_cases F hm hb hI it
-    rcases hcase with ⟨h', _⟩ | ⟨h', _, _, _⟩
+    rcases hcase with ⟨h', _⟩ | ⟨h', _, _, _, _⟩
     · left
       rw [runFrom_not_running p _ _ (by rw [h']; simp)]; exact h'
     · have hc := converged_costs F hmin hm hb hI it h'
@@ -794,7 +834,7 @@ theorem pot_step {p : Params} (F : Facts p) (hmin : 0 < p.dtMin) (r : Run) (o : 
     cases o with
     | converged it =>
       obtain ⟨hacc, _, _, hcase⟩ := step_converged_cases F hm hb hI it
-      rcases hcase with ⟨h', _⟩ | ⟨h', _, _, _⟩
+      rcases hcase with ⟨h', _⟩ | ⟨h', _, _, _, _⟩
       · unfold pot; rw [h', hacc]
         simp only [List.length_cons]
         push_cast; grind
@@ -1280,6 +1320,123 @@ theorem constant_finishes {p : Params} (hc : p.constantDt = true) (os : List Out
     rw [this, isclose_self] at h2
     cases h2
   · exact hf
+
+
+
+/-! ### restart -/
+
+def reached (r a t x : Rat) : Prop := ¬ (t < x ∧ isclose r a t x = false)
+
+theorem nextIdxFrom_spec (r a t : Rat) : ∀ (l : List Rat) (k : Nat),
+    k ≤ nextIdxFrom r a t l k ∧ nextIdxFrom r a t l k ≤ k + l.length ∧
+    (∀ i, i < nextIdxFrom r a t l k - k → ∃ x, l[i]? = some x ∧ reached r a t x) ∧
+    (∀ x, l[nextIdxFrom r a t l k - k]? = some x → t < x ∧ isclose r a t x = false)
+  | [], k => by simp [nextIdxFrom]
+  | x :: rest, k => by
+    unfold nextIdxFrom
+    by_cases h : (t < x && !isclose r a t x) = true
+    · rw [if_pos h]
+      simp only [Bool.and_eq_true, decide_eq_true_eq, Bool.not_eq_true'] at h
+      refine ⟨Nat.le_refl _, by simp, by simp, ?_⟩
+      intro y hy; simp at hy; subst hy; exact h
+    · rw [if_neg h]
+      obtain ⟨h1, h2, h3, h4⟩ := nextIdxFrom_spec r a t rest (k + 1)
+      refine ⟨by omega, by simp; omega, ?_, ?_⟩
+      · intro i hi
+        cases i with
+        | zero =>
+          refine ⟨x, rfl, ?_⟩
+          intro hc; apply h; simp [hc.1, hc.2]
+        | succ i =>
+          obtain ⟨y, hy, hr⟩ := h3 i (by omega)
+          exact ⟨y, by simpa using hy, hr⟩
+      · intro y hy
+        have e : nextIdxFrom r a t rest (k + 1) - k = (nextIdxFrom r a t rest (k + 1) - (k + 1)) + 1 := by omega
+        rw [e] at hy
+        exact h4 y (by simpa using hy)
+
+theorem isclose_above {r a u v y : Rat} (h1 : u ≤ v) (h2 : v ≤ y) (h : isclose r a u y = true) :
+    isclose r a v y = true := by
+  rw [isclose_iff] at h ⊢
+  rcases h with h | h
+  · left
+    rw [absR_of_nonpos (by grind : u - y ≤ 0)] at h
+    rw [absR_of_nonpos (by grind : v - y ≤ 0)]
+    grind
+  · right; grind
+
+/-- Restoring the clock and the step of an invariant state (as exported by `write_time_information`)
+    into a manager gives an invariant state again, provided the clock is not already within tolerance
+    of the pending scheduled time (then the repaired cursor search lands exactly on `pending`). -/
+theorem restore_inv {p : Params} (F : Facts p) {s s0 : TM} {acc : List Rat} (hm : acc.Pairwise (· > ·))
+    (I : Inv p s acc) (hti : s0.timeIndex = s.timeIndex)
+    (hnc : ∀ x, p.schedule[pending s]? = some x → isclose p.rtol p.atol s.time x = false) :
+    Inv p (restore p s0 s.time s.dt) acc ∧ pending (restore p s0 s.time s.dt) = pending s := by
+  obtain ⟨x, hx, hle, _⟩ := I.next
+  have hdt := I.dt_pos
+  have hmax := head_is_max hm I.head
+  have hpp := I.pend_pos
+  have hpl := I.pending_lt
+  obtain ⟨h1, h2, h3, h4⟩ := nextIdxFrom_spec p.rtol p.atol s.time (p.schedule.drop 1) 1
+  generalize hk : nextIdxFrom p.rtol p.atol s.time (p.schedule.drop 1) 1 = k at h1 h2 h3 h4
+  have hlen1 : (p.schedule.drop 1).length = p.schedule.length - 1 := by simp
+  have hget : ∀ i, (p.schedule.drop 1)[i]? = p.schedule[i + 1]? := by
+    intro i; rw [List.getElem?_drop]; congr 1; omega
+  have hreach : ∀ j, j < pending s → ∀ y, p.schedule[j]? = some y → reached p.rtol p.atol s.time y := by
+    intro j hj y hy
+    obtain ⟨y', hy', a, ha, hc⟩ := I.hit j hj
+    rw [hy] at hy'; cases hy'
+    intro ⟨hlt, hncl⟩
+    have := isclose_above (hmax a ha) (by grind) hc
+    rw [this] at hncl; cases hncl
+  have hpk : pending s ≤ k := by
+    rcases Nat.lt_or_ge k (pending s) with hlt | hge
+    · exfalso
+      have hkl : k - 1 < (p.schedule.drop 1).length := by omega
+      have hy : (p.schedule.drop 1)[k - 1]? = some (p.schedule.drop 1)[k - 1] := List.getElem?_eq_getElem hkl
+      have hnr := h4 _ hy
+      rw [hget, show k - 1 + 1 = k by omega] at hy
+      exact hreach k hlt _ hy hnr
+    · exact hge
+  have hkp : k ≤ pending s := by
+    rcases Nat.lt_or_ge (pending s) k with hlt | hge
+    · exfalso
+      obtain ⟨y, hy, hr⟩ := h3 (pending s - 1) (by omega)
+      rw [hget, show pending s - 1 + 1 = pending s by omega, hx] at hy
+      cases hy
+      exact hr ⟨by grind, hnc x hx⟩
+    · exact hge
+  have hkeq : k = pending s := by omega
+  have hpend : pending (restore p s0 s.time s.dt) = pending s := by
+    show (if false = true then _ else nextIdxFrom p.rtol p.atol s.time (p.schedule.drop 1) 1) = pending s
+    rw [hk, hkeq]; simp
+  refine ⟨⟨I.head, hdt, by simp [restore], ⟨x, by rw [hpend]; exact hx, hle, by simp [restore]⟩, ?_, ?_, I.dt_max, ?_, ?_,
+    I.time_nonneg, ?_, by rw [hpend]; exact hpp⟩, hpend⟩
+  · intro j hj; rw [hpend] at hj; exact I.hit j hj
+  · rw [← I.not_final]; exact final_congr p rfl
+  · rcases I.dt_min with h | ⟨x', hx', he⟩
+    · exact Or.inl h
+    · right; exact ⟨x', by rw [hpend]; exact hx', he⟩
+  · show ((0 : Nat) : Int) ≤ p.recompMax; have := F.rmax; omega
+  · show s0.timeIndex + 1 = acc.length; rw [hti]; exact I.ti
+
+/-- a run restarted from the exported clock and step of a running state is again in a good state -/
+theorem good_restarted {p : Params} (F : Facts p) {r : Run} (hg : Good p r) (hr : r.status = .running)
+    (hnc : ∀ x, p.schedule[pending r.tm]? = some x → isclose p.rtol p.atol r.tm.time x = false) :
+    Good p (restarted p r) := by
+  obtain ⟨tm, acc, st⟩ := r
+  cases hr
+  obtain ⟨hm, hb, hI⟩ := hg
+  have hI : Inv p tm acc := hI
+  have hnf : finalTimeReached p tm = false := hI.not_final
+  refine ⟨hm, hb, ?_⟩
+  show match (statusOf p tm) with
+    | .running => Inv p (restarted p ⟨tm, acc, .running⟩).tm acc
+    | .finished => _
+    | .raised e => _
+    | .crashed _ => False
+  simp only [statusOf, hnf, Bool.false_eq_true, if_false]
+  exact (restore_inv F hm hI rfl hnc).1
 
 
 end PorepyVerif.C09
